@@ -116,10 +116,23 @@ def s11_region(it):
         return set()
     seen = {}
     out = set()
+
+    def canon(e):
+        # names that are plain aliases of an earlier value denote that value: a + c and a + d are one
+        # expression when c and d both alias a
+        if not isinstance(e, tuple):
+            return e
+        if e[0] == "var":
+            return resolve_alias(it.decls, e)
+        e = tuple(canon(x) for x in e)
+        if e[0] == "bin" and e[1] in ("+", "*", "AND", "OR", "XOR") and repr(e[3]) < repr(e[2]):
+            e = (e[0], e[1], e[3], e[2])   # the optimiser's CSE treats these operators as commutative
+        return e
+
     for d in it.decls:
         if d[0] != "sig":
             continue
-        key = repr(d[2])
+        key = repr(canon(d[2]))
         if key in seen and d[2][0] != "var":
             out.add(d[1])
             out.add(seen[key])
